@@ -68,6 +68,10 @@ def gen_var_list(rng, base_name):
             out.append({"keyword": kw, "unit": rng.choice(W.UNIT_OVERRIDES[r["internal"]])})
         else:
             out.append(kw)
+        if rng.random() < 0.12:
+            # the same quantity once more in the same list, under an alias, with or without a unit override: the later entry decides the file
+            kw2 = rng.choice(r["keywords"])
+            out.append({"keyword": kw2, "unit": rng.choice(W.UNIT_OVERRIDES[r["internal"]])} if rng.random() < 0.6 else kw2)
     return out
 
 
@@ -182,6 +186,13 @@ def gen_program(rng, prop, name, world, tier, no_chdir=False):
         for _ in range(rng.randint(1, 4)):
             b, n = rng.choice([p for p in pool if p[0] != "calc"])
             prog.append({"op": "calc.read", "h": h0, "base": b, "name": n})
+        if rng.random() < 0.2:
+            # the command-line entry point with an explicit log level, as history before (or after) the library calls
+            prog.insert(rng.randrange(len(prog) + 1), {"op": "cli.run", "abs": rng.random() < 0.6, "expect_ok": valid,
+                                                      "debug": rng.choice(["DEBUG", "DEBUG", "INFO", "WARNING", "ERROR"])})
+        if valid and rng.random() < 0.2:
+            # the same calculation with the pressure grid stretched to the edge of the computed range (last pressure a fraction u of one step below the top)
+            prog.append({"op": "calc.edge", "h": name.lower() + "e", "u": round(rng.uniform(0.03, 0.97), 3), "expect_ok": True})
         if rng.random() < 0.25:
             prog.append(_calc_new(name.lower() + "1", rng, valid))
         return prog
@@ -245,6 +256,8 @@ def gen_program(rng, prop, name, world, tier, no_chdir=False):
                 prog.append({"op": "calc.write", "h": h, "vars": {"base": base, "list": gen_var_list(rng, base)}, "expect_ok": valid})
             elif k == "run":
                 prog.append({"op": "cli.run", "abs": rng.random() < 0.6, "expect_ok": valid})
+                if rng.random() < 0.25:
+                    prog[-1]["debug"] = rng.choice(["DEBUG", "DEBUG", "INFO", "WARNING", "ERROR", "CRITICAL"])
             elif k == "new":
                 hn = name.lower() + "h" + str(len(prog))
                 handles.append(hn)
@@ -543,8 +556,9 @@ def gen_extract_ops(rng, name, world, tier, prog, nmin=2, nmax=6):
                 for cn in cols:
                     row.append({pname: p, tname: t}.get(cn, round(rng.uniform(0, 2900), 3)))
                 pts.append(row)
+            int_text = all(float(v) == int(v) for row in pts for v in row) and rng.random() < 0.6     # whole numbers written without a decimal point
             gname = f"geotherm_{name.lower()}{len(prog)}_{len(ops)}.txt"
-            ops.append({"op": "cli.geotherm", "geotherm": gname, "columns": cols, "pname": pname, "tname": tname, "points": pts, "variables": variables,
+            ops.append({"op": "cli.geotherm", "geotherm": gname, "columns": cols, "pname": pname, "tname": tname, "points": pts, "variables": variables, "int_text": int_text,
                         "hide_header": rng.random() < 0.15, "abs": rng.random() < 0.5})
     return ops
 
@@ -557,6 +571,11 @@ def gen_stub_tables(rng, name, world, n):
         nt, npp = rng.randint(5, 9), rng.randint(6, 10)
         if rng.random() < 0.3:
             nt, npp = rng.randint(10, 18), rng.randint(11, 20)     # large enough for "far from both ends of the geotherm" to exist
+        if rng.random() < 0.12:
+            if rng.random() < 0.5:
+                nt = rng.randint(61, 75)       # more rows (or columns) than any display limit of the table library
+            else:
+                npp = rng.randint(61, 70)
         t0, dt = rng.choice([0.0, 300.0]), rng.choice([50.0, 100.0, 12.5])
         p0, dp = rng.choice([0.0, 5.0]), rng.choice([1.0, 2.5, 10.0])
         T = [t0 + i * dt for i in range(nt)]
@@ -822,6 +841,8 @@ def gen_scenario(prop, seed, tier, faults_enabled=None, nclients=None, segments_
             w["valid"] = False
         if prop == "C19":
             w["stubs"] = gen_stub_tables(rng, n, w, rng.randint(0, 2))
+        if prop == "C17" and rng.random() < 0.5:
+            w["stubs"] = gen_stub_tables(rng, n, w, 1)      # other commands of the package used in the same process: history for the readers and for fill
         worlds[n] = w
     segments = prop in ("C14", "C12", "C15", "C19", "C09") and nclients > 1 and rng.random() < ((0.45 if prop in ("C14", "C12") else 0.3) if segments_p is None else segments_p)
     if segments or (prop in ("C15", "C19", "C17") and nclients > 1 and rng.random() < 0.6):
@@ -830,6 +851,17 @@ def gen_scenario(prop, seed, tier, faults_enabled=None, nclients=None, segments_
                 worlds[n]["datadir"] = "d" + n.lower()
             worlds[n]["cwd"] = "ws"
     programs = {n: gen_program(rng, prop, n, worlds[n], tier, no_chdir=bool(segments)) for n in names}
+    if prop == "C17":
+        for n in names:
+            for st in worlds[n].get("stubs", []):
+                for _ in range(rng.randint(1, 2)):
+                    k = rng.randrange(len(programs[n]) + 1)
+                    if rng.random() < 0.5:
+                        op = {"op": "cli.extract", "variables": [st["var"]], "T": st["T"][rng.randrange(len(st["T"]))], "P": None, "hide_header": False}
+                    else:
+                        op = {"op": "cli.geotherm", "geotherm": "g.txt", "columns": ["P", "T"], "pname": "P", "tname": "T", "variables": [st["var"]],
+                              "points": [[rng.choice(st["P"]), rng.choice(st["T"])] for _ in range(3)], "int_text": False, "hide_header": False, "abs": True}
+                    programs[n].insert(k, op)
     if prop == "C19" and nclients > 1 and len({worlds[n]["cwd"] for n in names}) == 1:
         # one directory collecting the results of several runs: a request may name tables of different runs (different grids)
         for n in names:
@@ -860,7 +892,8 @@ def gen_scenario(prop, seed, tier, faults_enabled=None, nclients=None, segments_
                           "model": {"poly": st["poly"], "kind": "stub-table"}})
         for op in programs[n]:
             if op["op"] == "cli.geotherm":
-                text = "  ".join(op["columns"]) + "\n" + "\n".join("  ".join(repr(float(x)) for x in row) for row in op["points"]) + "\n"
+                fmt = (lambda x: "%d" % int(x)) if op.get("int_text") else (lambda x: repr(float(x)))
+                text = "  ".join(op["columns"]) + "\n" + "\n".join("  ".join(fmt(x) for x in row) for row in op["points"]) + "\n"
                 extra.append({"client": n, "path": f"{w['cwd']}/{op['geotherm']}", "text": text})
             if op["op"] == "fill.call" and isinstance(op["target"], dict) and "relations_" in op["target"]["relpath"] and "no_such" not in op["target"]["relpath"]:
                 if not any(e["path"] == op["target"]["relpath"] for e in extra):
